@@ -19,8 +19,8 @@ WT = "/tmp/seedconf-wt"
 
 
 def sh(cmd, cwd=None, timeout=1800):
-    p = subprocess.run(cmd, cwd=cwd, env=ENV, capture_output=True, text=True, timeout=timeout)
-    return p.returncode, p.stdout + p.stderr
+    p = subprocess.run(cmd, cwd=cwd, env=ENV, capture_output=True, timeout=timeout)
+    return p.returncode, p.stdout.decode("utf-8", "replace") + p.stderr.decode("utf-8", "replace")
 
 
 def main():
@@ -117,9 +117,16 @@ def main():
                     lines = [l.strip().replace(tmp + "/", "") for l in (pr.stdout + pr.stderr).splitlines() if (": rule " in l and not l.startswith("KNOWN")) or l.startswith("ERROR")]
                     fired[pid] = {"exit": pr.returncode, "reports": lines[:8]}
             print("checks fired:", json.dumps(fired, indent=1))
+            if a.refresh:
+                mp = os.path.join(a.seed, "meta.json")
+                meta = json.load(open(mp))
+                meta["checks_fired"] = fired
+                meta["detected_by_own_property"] = a.prop in fired and fired[a.prop]["exit"] == 1
+                meta["checks_fired_note"] = "re-run with the final checker on a scratch copy of /repo HEAD with the patch applied (the confirmation run applied the patch to /repo itself)"
+                json.dump(meta, open(mp, "w"), indent=1)
+                print("refreshed", a.refresh, sorted(fired), "own:", meta["detected_by_own_property"])
         finally:
             shutil.rmtree(tmp, ignore_errors=True)
-            shutil.rmtree(os.path.join(ROOT, "evidence", "violations"), ignore_errors=True)
         return
     # detection
     rc, out = sh(["git", "-C", "/repo", "status", "--porcelain"])
